@@ -180,6 +180,64 @@ def build(reg):
         ensures=["(result is None) == (B64DEC(UTF8(authextra['scram_server_signature'])) == "
                  "HMAC_SHA256(HMAC_SHA256(self._salted_password, b'Server Key'), self._auth_message))"],
         raises={"binascii.Error": "True"}, **common)
+    # WAMP-SCRAM client proof (RFC 5802 section 3, with PBKDF2-HMAC-SHA256 as Hi):
+    #   AuthMessage  = n=<saslprep(authid)>,r=<client nonce>,r=<server nonce>,s=<salt>,i=<iterations>,c=<cbind>,r=<server nonce>
+    #   ClientKey    = HMAC(SaltedPassword, "Client Key");  ClientProof = ClientKey XOR HMAC(H(ClientKey), AuthMessage)
+    sha256_f = z3.Function("SHA256", BytesSort, BytesSort)
+    xor_f = z3.Function("XOR", BytesSort, BytesSort, BytesSort)
+    sasl_f = z3.Function("saslprep", z3.StringSort(), z3.StringSort())
+    reg.native_spec("SHA256", lambda ex, state, b: VBytes(sha256_f(b.t)))
+    reg.native_spec("XOR", lambda ex, state, a, b: VBytes(xor_f(a.t, b.t)))
+    reg.native_spec("SASLPREP", lambda ex, state, s_: VStr(sasl_f(s_.t)))
+    reg.shape("HashObj", fields={"algo": "str", "msg": "bytes"}, methods={"digest": "hash.digest"})
+
+    def ext_hashlib_new(ex, state, args, kwargs, sv):
+        o = HObj("inst", None, "HashObj")
+        o.fields = {"algo": args[0], "msg": args[1] if len(args) > 1 else VBytes(b"")}
+        return state.alloc(o)
+
+    def ext_hash_digest(ex, state, args, kwargs, sv):
+        o = state.heap[sv.oid]
+        if not (z3.is_string_value(simp(o.fields["algo"].t)) and simp(o.fields["algo"].t).as_string() == "sha256"):
+            raise Unsupported("hashlib.new with an algorithm other than sha256")
+        return VBytes(sha256_f(o.fields["msg"].t))
+    reg.external("hashlib.new", ext_hashlib_new, pure=True)
+    reg.external("hash.digest", ext_hash_digest, pure=True)
+    reg.external("autobahn.util.xor", lambda ex, state, args, kwargs, sv: VBytes(xor_f(args[0].t, args[1].t)), pure=True)
+    reg.external("xor_array", lambda ex, state, args, kwargs, sv: VBytes(xor_f(args[0].t, args[1].t)), pure=True)
+    reg.external("passlib.utils.saslprep", lambda ex, state, args, kwargs, sv: VStr(sasl_f(args[0].t)), pure=True)
+    reg.external("saslprep", lambda ex, state, args, kwargs, sv: VStr(sasl_f(args[0].t)), pure=True)
+    reg.external("base64.b64encode", lambda ex, state, args, kwargs, sv: VBytes(b64_f(args[0].t)), pure=True)
+    reg.overrides[(A, "xor_array")] = VFunc("builtin", "xor_array")
+    reg.overrides[(A, "saslprep")] = VFunc("builtin", "saslprep")
+    reg.shape("ScramArgs", fields={})
+    reg.shape("AuthScramC", cls=A + ":AuthScram", fields={
+        "_salted_password": "opt:bytes", "_auth_message": "opt:bytes", "_args": "cdict:password=str,authid=str",
+        "_client_nonce": "str"})          # (the nonce is created by authextra before any CHALLENGE can arrive; asserted)
+    reg.shape("ChallengeScram", fields={"method": "str",
+                                        "extra": "odict:nonce=str,kdf=str,salt=str,iterations=int,memory=int,channel_binding=str"})
+    X = "challenge.extra"
+    CB = "(%s['channel_binding'] if 'channel_binding' in %s else '')" % (X, X)
+    # the auth message is pure ASCII by construction (.encode("ascii") raises otherwise): octet = code point
+    reg.native_spec("ASCIIENC", lambda ex, state, t: VBytes(natives.latin1_encode(t.t)))
+    AM = ("ASCIIENC('{client_first_bare},{server_first},{client_final_no_proof}'.format("
+          "client_first_bare=f\"n={SASLPREP(self._args['authid'])},r={self._client_nonce}\", "
+          "server_first=f\"r={%s['nonce']},s={%s['salt']},i={%s['iterations']}\", "
+          "client_final_no_proof=f\"c={%s},r={%s['nonce']}\"))" % (X, X, X, CB, X))
+    SP = "PBKDF2('sha256', UTF8(self._args['password']), B64DEC(UTF8(%s['salt'])), %s['iterations'], 32)" % (X, X)
+    CK = "HMAC_SHA256(%s, b'Client Key')" % SP
+    reg.contract(
+        A + ":AuthScram.on_challenge", name=A + ":AuthScram.on_challenge[pbkdf2]",
+        params={"self": "obj:AuthScramC", "session": "any", "challenge": "obj:ChallengeScram"}, returns="bytes",
+        requires=["'kdf' in %s and %s['kdf'] == 'pbkdf2'" % (X, X), "'iterations' in %s and %s['iterations'] >= 0" % (X, X)],
+        modifies=["self._auth_message", "self._salted_password"],
+        ensures=[
+            "'nonce' in %s and 'salt' in %s and self._client_nonce is not None" % (X, X),
+            "self._auth_message == %s" % AM,
+            "self._salted_password == %s" % SP,
+            "result == B64(XOR(%s, HMAC_SHA256(SHA256(%s), %s)))" % (CK, CK, AM)],
+        raises={"AssertionError": "True", "RuntimeError": "True", "ValueError": "True", "UnicodeEncodeError": "True",
+                "binascii.Error": "True"}, **common)
     # WAMP-CRA: signature over the challenge with the (optionally PBKDF2-salted) secret
     reg.shape("AuthCra", cls=A + ":AuthWampCra", fields={"_secret": "str", "_args": "any"})
     reg.shape("ChallengePlain", fields={"method": "str", "extra": "cdict:challenge=str"})
